@@ -157,6 +157,98 @@ static void run_a64(Rng& r, const std::string& spec) {
   check_frames<a64::Compiler, a64::Gp, a64::Vec>(cc, "a64", spec);
 }
 
+// ---------------------------------------------------------------------------------------------------------------------
+// x86-64, executed: functions with MANY parameters (so that some arrive on the stack and may have to be relocated into the
+// function's own frame) that also call a many-argument C helper (so that the frame has a call area). Every parameter is
+// stored to an output buffer after the call and compared with what the C++ caller passed.
+#if defined(__x86_64__)
+static uint64_t g_helper_seen[12];
+static uint64_t helper10(uint64_t a0, uint64_t a1, uint64_t a2, uint64_t a3, uint64_t a4, uint64_t a5, uint64_t a6, uint64_t a7, uint64_t a8, uint64_t a9) {
+  uint64_t v[10] = { a0, a1, a2, a3, a4, a5, a6, a7, a8, a9 };
+  for (int i = 0; i < 10; i++) g_helper_seen[i] = v[i];
+  return a0 ^ a9;
+}
+static uint64_t g_out_i[16];
+static double g_out_d[17];
+typedef void (*FnI16)(uint64_t, uint64_t, uint64_t, uint64_t, uint64_t, uint64_t, uint64_t, uint64_t, uint64_t, uint64_t, uint64_t, uint64_t, uint64_t, uint64_t, uint64_t, uint64_t);
+typedef void (*FnD17)(double, double, double, double, double, double, double, double, double, double, double, double, double, double, double, double, double);
+typedef void (*FnI8D12)(uint64_t, uint64_t, uint64_t, uint64_t, uint64_t, uint64_t, uint64_t, uint64_t, double, double, double, double, double, double, double, double, double, double, double, double);
+
+static JitRuntime* g_jit = nullptr;
+static uint64_t g_exec = 0, g_exec_relocation_shapes = 0;
+
+static void run_exec(Rng& r, const std::string& spec) {
+  if (!g_jit) g_jit = new JitRuntime();
+  int shape = int(r.below(3));                 // 0: 16 ints, 1: 17 doubles, 2: 8 ints + 12 doubles
+  uint32_t ni = shape == 0 ? 16 : shape == 1 ? 0 : 8, nd = shape == 0 ? 0 : shape == 1 ? 17 : 12;
+  bool wide_vec = r.below(2) == 0;             // double parameters bound to 128-bit virtual registers
+  uint32_t stk_align = (uint32_t[]){ 0, 0, 16, 32, 64 }[r.below(5)];
+  bool fp = r.below(3) == 0;
+  bool call_first = r.below(4) != 0;           // the helper call happens before the parameters are consumed
+  bool with_call = r.below(5) != 0;
+  CodeHolder code;
+  if (code.init(g_jit->environment(), g_jit->cpu_features()) != Error::kOk) { fprintf(stderr, "init failed\n"); exit(2); }
+  x86::Compiler cc(&code);
+  FuncSignature sig(CallConvId::kCDecl);
+  sig.set_ret(TypeId::kVoid);
+  for (uint32_t i = 0; i < ni; i++) sig.add_arg(TypeId::kUInt64);
+  for (uint32_t i = 0; i < nd; i++) sig.add_arg(TypeId::kFloat64);
+  FuncNode* fn = cc.add_func(sig);
+  if (!fn) { fprintf(stderr, "add_func failed\n"); exit(2); }
+  if (fp) fn->frame().set_preserved_fp();
+  std::vector<x86::Gp> ia; std::vector<x86::Vec> da;
+  for (uint32_t i = 0; i < ni; i++) { x86::Gp g = cc.new_gp64("a%u", i); fn->set_arg(i, g); ia.push_back(g); }
+  for (uint32_t i = 0; i < nd; i++) { x86::Vec v = wide_vec ? cc.new_xmm("d%u", i) : cc.new_xmm_sd("d%u", i); fn->set_arg(ni + i, v); da.push_back(v); }
+  x86::Mem stk;
+  if (stk_align) { stk = cc.new_stack(64, stk_align); x86::Mem m = stk; m.set_size(8); cc.mov(m, Imm(0x1122334455667788ll & 0x7FFFFFFF)); }
+  auto do_call = [&]() {
+    InvokeNode* inv = nullptr;
+    FuncSignature hs = FuncSignature::build<uint64_t, uint64_t, uint64_t, uint64_t, uint64_t, uint64_t, uint64_t, uint64_t, uint64_t, uint64_t, uint64_t>();
+    cc.invoke(Out(inv), Imm(int64_t(uintptr_t(&helper10))), hs);
+    for (uint32_t a = 0; a < 10; a++) inv->set_arg(a, Imm(int64_t(0x100 + a)));
+    x86::Gp rv = cc.new_gp64("rv"); inv->set_ret(0, rv);
+  };
+  if (with_call && call_first) do_call();
+  x86::Gp p = cc.new_gp64("p");
+  cc.mov(p, Imm(int64_t(uintptr_t(g_out_i))));
+  for (uint32_t i = 0; i < ni; i++) cc.mov(x86::qword_ptr(p, int32_t(i * 8)), ia[i]);
+  cc.mov(p, Imm(int64_t(uintptr_t(g_out_d))));
+  for (uint32_t i = 0; i < nd; i++) cc.movsd(x86::qword_ptr(p, int32_t(i * 8)), da[i]);
+  if (with_call && !call_first) do_call();
+  cc.ret();
+  cc.end_func();
+  Error e = cc.finalize();
+  S.programs++;
+  if (e != Error::kOk) { S.finalize_errors++; return; }
+  void* fnp = nullptr;
+  if (g_jit->add(&fnp, &code) != Error::kOk) { S.finalize_errors++; return; }
+  uint64_t iv[16]; double dv[17];
+  for (int i = 0; i < 16; i++) iv[i] = 0xA000000000000000ull + uint64_t(i) * 0x0101010101ull + r.below(1000);
+  for (int i = 0; i < 17; i++) dv[i] = 1000.5 + i * 3.25 + double(r.below(1000));
+  memset(g_out_i, 0xEE, sizeof g_out_i); memset(g_out_d, 0xEE, sizeof g_out_d); memset(g_helper_seen, 0, sizeof g_helper_seen);
+  if (shape == 0) ((FnI16)fnp)(iv[0], iv[1], iv[2], iv[3], iv[4], iv[5], iv[6], iv[7], iv[8], iv[9], iv[10], iv[11], iv[12], iv[13], iv[14], iv[15]);
+  else if (shape == 1) ((FnD17)fnp)(dv[0], dv[1], dv[2], dv[3], dv[4], dv[5], dv[6], dv[7], dv[8], dv[9], dv[10], dv[11], dv[12], dv[13], dv[14], dv[15], dv[16]);
+  else ((FnI8D12)fnp)(iv[0], iv[1], iv[2], iv[3], iv[4], iv[5], iv[6], iv[7], dv[0], dv[1], dv[2], dv[3], dv[4], dv[5], dv[6], dv[7], dv[8], dv[9], dv[10], dv[11]);
+  g_exec++;
+  if (with_call && (wide_vec || stk_align >= 32) && (nd > 8 || ni > 6)) g_exec_relocation_shapes++;
+  char cfg[160];
+  snprintf(cfg, sizeof cfg, "shape=%d wide-vregs=%d stack-align=%u preserved-fp=%d call=%s", shape, int(wide_vec), stk_align, int(fp), !with_call ? "none" : call_first ? "before" : "after");
+  for (uint32_t i = 0; i < ni; i++) if (g_out_i[i] != iv[i]) {
+    char b[256]; snprintf(b, sizeof b, "integer parameter #%u arrived as 0x%llx, the caller passed 0x%llx (%s)", i, (unsigned long long)g_out_i[i], (unsigned long long)iv[i], cfg);
+    viol(std::string("cc-exec:parameter-wrong:int:") + (i >= 6 ? "stack" : "reg"), b, spec); break;
+  }
+  for (uint32_t i = 0; i < nd; i++) if (memcmp(&g_out_d[i], &dv[i], 8) != 0) {
+    char b[256]; snprintf(b, sizeof b, "double parameter #%u arrived as %g, the caller passed %g (%s)", i, g_out_d[i], dv[i], cfg);
+    viol(std::string("cc-exec:parameter-wrong:f64:") + (i >= 8 ? "stack" : "reg"), b, spec); break;
+  }
+  if (with_call) for (int a = 0; a < 10; a++) if (g_helper_seen[a] != uint64_t(0x100 + a)) {
+    char b[200]; snprintf(b, sizeof b, "helper argument #%d arrived as 0x%llx, expected 0x%x (%s)", a, (unsigned long long)g_helper_seen[a], 0x100 + a, cfg);
+    viol("cc-exec:helper-argument-wrong", b, spec); break;
+  }
+  g_jit->release(fnp);
+}
+#endif
+
 int main(int argc, char** argv) {
   Args a(argc, argv);
   uint64_t seed = a.u64("seed", 1), count = a.u64("count", 1000), first = a.u64("first", 0);
@@ -165,13 +257,22 @@ int main(int argc, char** argv) {
   for (uint64_t i = first; i < first + count; i++) {
     Rng r(seed * 1000003ull + i * 7919ull + (arch == "x64" ? 1 : arch == "x86" ? 2 : 3));
     std::string spec = "--arch " + arch + " --seed " + std::to_string(seed) + " --only " + std::to_string(i);
+#if defined(__x86_64__)
+    if (arch == "x64exec") { run_exec(r, spec); continue; }
+#endif
     if (arch == "x64") run_x86(r, Arch::kX64, spec);
     else if (arch == "x86") run_x86(r, Arch::kX86, spec);
     else run_a64(r, spec);
   }
   std::string o = "{\"arch\":" + jstr(arch) + ",\"programs\":" + std::to_string(S.programs) + ",\"invokes\":" + std::to_string(S.invokes) +
                   ",\"finalize_errors\":" + std::to_string(S.finalize_errors) + ",\"max_arg_stack\":" + std::to_string(S.max_arg_stack) +
-                  ",\"with_locals\":" + std::to_string(S.with_locals) + ",\"big_before_small\":" + std::to_string(S.big_before_small) + ",\"violations\":[";
+                  ",\"executed\":" + std::to_string(
+#if defined(__x86_64__)
+                  g_exec
+#else
+                  0
+#endif
+                  ) + ",\"with_locals\":" + std::to_string(S.with_locals) + ",\"big_before_small\":" + std::to_string(S.big_before_small) + ",\"violations\":[";
   bool firstv = true;
   for (auto& kv : g_viol) {
     if (!firstv) o += ",";
